@@ -319,7 +319,7 @@ func runC07(c *ctx) error {
 		if i%500 == 7 {
 			// stacked diamonds: every layer merges both mappings of the layer below, so the number of merge paths
 			// doubles per layer while the result stays linear in size; decoding must stay fast
-			src = stackedDiamonds(18 + rng.Intn(8))
+			src = stackedDiamonds(22 + rng.Intn(6))
 			g.multiMerge = true
 			c.res.Hist("doc.stacked-diamonds")
 		}
@@ -398,9 +398,9 @@ func runC07(c *ctx) error {
 		if surgery != "" {
 			core.Current(map[string]any{"property": "C07", "what": "ordered.DecodeYAML on this node graph", "input": desc})
 		}
-		res, finished := decodeWithTimeout(&root, 5*time.Second)
+		res, finished := decodeWithTimeout(&root, 20*time.Second)
 		if !finished {
-			c.res.Fail(core.OracleFailure{What: "DecodeYAML did not return within 5s", Input: desc})
+			c.res.Fail(core.OracleFailure{What: "DecodeYAML did not return within 20s", Input: desc})
 			continue
 		}
 		if res.pn != "" {
@@ -465,7 +465,7 @@ func runC07(c *ctx) error {
 					walk(n.Alias, seen)
 				}
 				walk(&inl, map[*yaml.Node]bool{})
-				if r2, fin := decodeWithTimeout(&inl, 5*time.Second); fin && r2.pn == "" {
+				if r2, fin := decodeWithTimeout(&inl, 20*time.Second); fin && r2.pn == "" {
 					c.res.OracleChecks++
 					a, b := classifyDecodeErr(res.err), classifyDecodeErr(r2.err)
 					if res.err == nil {
